@@ -132,11 +132,39 @@ func runDecMethodAlias(r *rng, op string, x0 *apd.Decimal) string {
 	})
 }
 
+// gn <b hex> => <package state unchanged> <operand unchanged>
+func runNumDigitsGlobals(v *big.Int) string {
+	return guard("gn "+v.Text(16), func() string {
+		base := apd.VerifSnapshotGlobals()
+		b := new(apd.BigInt).SetMathBigInt(v)
+		apd.NumDigits(b)
+		g, o := 1, 1
+		if apd.VerifSnapshotGlobals() != base {
+			g = 0
+		}
+		if b.MathBigInt().Cmp(v) != 0 {
+			o = 0
+		}
+		return fmt.Sprintf("%d %d", g, o)
+	})
+}
+
 func init() {
+	replayers["gn"] = func(f []string) {
+		v, _ := new(big.Int).SetString(f[1], 16)
+		emit(runNumDigitsGlobals(v))
+	}
 	streams["alias"] = func(r *rng, n int) {
 		globalsBaseline = apd.VerifSnapshotGlobals()
 		for i := 0; i < n; i++ {
-			switch k := r.intn(10); {
+			switch k := r.intn(11); {
+			case k == 10: // exported functions over a caller's BigInt: the package tables are read-only
+				nd := r.pick([]int{1, 19, 20, 38, 39, 40, 50, 77, 100, 128, 129, 130, 200, 400})
+				v := r.coeffShape(nd)
+				if r.coin(60) {
+					v.Neg(v)
+				}
+				emit(runNumDigitsGlobals(v))
 			case k < 6:
 				emit(runAlias(r, r.genArithCase(arithOpsAll, 6, false, true)))
 			case k < 8:
